@@ -99,14 +99,19 @@ func (f *FeedbackAdapter) unpackRunLengthChunk(
 			ssrc:           0,
 			sequenceNumber: i,
 		}
+		// Every received packet has a delta, whether or not it is still in the
+		// history: consume it so that later packets keep their own arrival time.
+		received := chunk.PacketStatusSymbol != rtcp.TypeTCCPacketNotReceived
+		if received {
+			if len(deltas)-1 < deltaIndex {
+				return deltaIndex, refTime, result, errInvalidFeedback
+			}
+			refTime = refTime.Add(time.Duration(deltas[deltaIndex].Delta) * time.Microsecond)
+			deltaIndex++
+		}
 		if ack, ok := f.history.get(key); ok {
-			if chunk.PacketStatusSymbol != rtcp.TypeTCCPacketNotReceived {
-				if len(deltas)-1 < deltaIndex {
-					return deltaIndex, refTime, result, errInvalidFeedback
-				}
-				refTime = refTime.Add(time.Duration(deltas[deltaIndex].Delta) * time.Microsecond)
+			if received {
 				ack.Arrival = refTime
-				deltaIndex++
 			}
 			result[resultIndex] = ack
 		}
@@ -127,14 +132,19 @@ func (f *FeedbackAdapter) unpackStatusVectorChunk(
 			ssrc:           0,
 			sequenceNumber: start + uint16(i), //nolint:gosec // G115
 		}
+		// Every received packet has a delta, whether or not it is still in the
+		// history: consume it so that later packets keep their own arrival time.
+		received := symbol != rtcp.TypeTCCPacketNotReceived
+		if received {
+			if len(deltas)-1 < deltaIndex {
+				return deltaIndex, refTime, result, errInvalidFeedback
+			}
+			refTime = refTime.Add(time.Duration(deltas[deltaIndex].Delta) * time.Microsecond)
+			deltaIndex++
+		}
 		if ack, ok := f.history.get(key); ok {
-			if symbol != rtcp.TypeTCCPacketNotReceived {
-				if len(deltas)-1 < deltaIndex {
-					return deltaIndex, refTime, result, errInvalidFeedback
-				}
-				refTime = refTime.Add(time.Duration(deltas[deltaIndex].Delta) * time.Microsecond)
+			if received {
 				ack.Arrival = refTime
-				deltaIndex++
 			}
 			result[resultIndex] = ack
 		}
